@@ -1,6 +1,7 @@
 // Common harness skeleton: case execution with recording, replay mode, rapidcheck mode.
 #pragma once
 #include "rcgen.hpp"
+#include <sys/wait.h>
 
 namespace vf {
 
@@ -51,5 +52,37 @@ struct Harness {
         return R.failure_count ? 1 : 0;
     }
 };
+
+// run f in a forked child so that a SIGSEGV (guard page) or abort becomes an ordinary, shrinkable failure
+inline std::string forked(const std::function<std::string()> &f) {
+    int fd[2];
+    if (pipe(fd) != 0) return f();
+    fflush(nullptr);
+    pid_t pid = fork();
+    if (pid < 0) { close(fd[0]); close(fd[1]); return f(); }
+    if (pid == 0) {
+        close(fd[0]);
+        for (int s : {SIGSEGV, SIGABRT, SIGBUS, SIGFPE, SIGILL}) signal(s, SIG_DFL);
+        std::string why = f();
+        if (!why.empty()) (void)!write(fd[1], why.data(), why.size() > 4000 ? 4000 : why.size());
+        close(fd[1]);
+        _exit(why.empty() ? 0 : 1);
+    }
+    close(fd[1]);
+    std::string why;
+    char buf[4096];
+    ssize_t n;
+    while ((n = read(fd[0], buf, sizeof buf)) > 0) why.append(buf, n);
+    close(fd[0]);
+    int st = 0;
+    waitpid(pid, &st, 0);
+    if (WIFSIGNALED(st)) {
+        char b[120];
+        snprintf(b, sizeof b, "child process killed by signal %d (%s) while executing the case", WTERMSIG(st), strsignal(WTERMSIG(st)));
+        return b;
+    }
+    if (WIFEXITED(st) && WEXITSTATUS(st) != 0 && why.empty()) return "child exited with status " + std::to_string(WEXITSTATUS(st));
+    return why;
+}
 
 } // namespace vf
